@@ -43,7 +43,7 @@ CASES = [
     ("C12", "break", "service removed when count is still 1 owner short", "function.py", "if cls.service_cnt.get(key, 0) > 1:", "if cls.service_cnt.get(key, 0) > 0:"),
     ("C13", "break", "other tasks cancelled without our_tasks test", "function.py", "elif task != curr_task and task in cls.our_tasks:", "elif task != curr_task:"),
     ("C14", "break", "task context not forgotten", "function.py", "                cls.task2context.pop(task, None)\n", ""),
-    ("C15", "break", "mqtt subscription not released", "trigger.py", "                if mqtt_trigger is not None:\n                    Mqtt.notify_del(mqtt_trigger[0], notify_q)\n", ""),
+    ("C15", "break", "mqtt subscription not released", "trigger.py", "            if mqtt_trigger is not None:\n                Mqtt.notify_del(mqtt_trigger[0], notify_q)\n", ""),
     ("C16", "break", "kwargs merged into HA's mapping without copy", "state.py", "            new_attributes = new_attributes.copy()\n            new_attributes.update(kwargs)", "            new_attributes.update(kwargs)"),
     ("C17", "break", "allow-list checked on the top-level package only", "eval.py", "and imp.name not in ALLOWED_IMPORTS", 'and imp.name.split(".")[0] not in ALLOWED_IMPORTS'),
     ("C18", "break", "trigger function call unprotected (legacy)", "trigger.py", "            try:\n                await ast_ctx.call_func(func, None, **kwargs)\n            except Exception as e:\n                ast_ctx.log_exception(e)", "            await ast_ctx.call_func(func, None, **kwargs)"),
@@ -61,7 +61,7 @@ CASES = [
     ("C12", "break", "wrong-typed option dropped (service.call)", "function.py", "            if keyword in kwargs and type(kwargs[keyword]) in typ:\n                hass_args[keyword] = kwargs.pop(keyword)\n            elif default:\n                hass_args[keyword] = default\n\n        return await cls.hass_services_async_call(domain, name, kwargs, **hass_args)",
      "            value = kwargs.pop(keyword, default)\n            if type(value) in typ:\n                hass_args[keyword] = value\n\n        return await cls.hass_services_async_call(domain, name, kwargs, **hass_args)"),
     ("C15", "break", "start loop over a snapshot", "decorator_abc.py", "        for decorator in self._decorators:\n            _LOGGER.debug(\"Starting decorator: %s\", decorator)", "        for decorator in list(self._decorators):\n            _LOGGER.debug(\"Starting decorator: %s\", decorator)"),
-    ("C17", "break", "single-file candidate uses the dotted name", "global_ctx.py", 'file_paths.append([ctx_name, f"modules/{module_path}.py", None])', 'file_paths.append([ctx_name, f"modules/{module_name}.py", None])'),
+    ("C17", "break", "single-file candidate uses the dotted name", "global_ctx.py", '                    f"modules/{module_path}.py",\n', '                    f"modules/{module_name}.py",\n'),
     ("C19", "break", "closed subscriber kept", "jupyter_kernel.py", "            self.iopub_socket.discard(iopub_socket)\n", ""),
     ("C20", "break", "record edited in place", "requirements.py", "config_entry.data.get(CONF_INSTALLED_PACKAGES, {}).copy()", "config_entry.data.get(CONF_INSTALLED_PACKAGES, {})"),
     # ---- benign (behaviour preserving; must stay silent) -----------------------------------------------------------------
@@ -124,7 +124,28 @@ CASES = [
     ("C09", "benign", "watch set copied through a list", "trigger.py", "self.state_trig_ident = set(self.state_user_watch)", "self.state_trig_ident = set(list(self.state_user_watch))"),
     ("C07", "benign", "occurrence-time test with the type checked first", "decorators/timing.py", "            if data.func_args.get(\"trigger_type\") == \"time\" and isinstance(\n                data.func_args.get(\"trigger_time\"), dt.datetime\n            ):", "            if isinstance(data.func_args.get(\"trigger_time\"), dt.datetime) and data.func_args.get(\"trigger_type\") == \"time\":"),
     ("C16", "benign", "absence test written with keys()", "state.py", "            if parts[2] not in new_attr:", "            if parts[2] not in new_attr.keys():"),
-    ("C20", "benign", "blank-stripping written with split/join", "requirements.py", "pkg_name = parts[0].strip()", "pkg_name = \"\".join(parts[0].split())"),
+    # rounds 5/6 rules
+    ("C01", "break", "unpack serves targets from the assigned object when it is a tuple", "eval.py", "            vals = [*val_iter]", "            vals = val if isinstance(val, tuple) else [*val_iter]"),
+    ("C01", "benign", "unpack snapshot written with list()", "eval.py", "            vals = [*val_iter]", "            vals = list(val_iter)"),
+    ("C02", "break", "non-manager reported as AttributeError again", "eval.py", "        except AttributeError as exc:\n            protocol =", "        except KeyError as exc:\n            protocol ="),
+    ("C03", "break", "call_func takes func by keyword again", "eval.py", "    async def call_func(self, func, func_name, /, *args, **kwargs):", "    async def call_func(self, func, func_name, *args, **kwargs):"),
+    ("C04", "break", "four-part old names dropped from the subscription", "state.py", "            if len(parts) != 2 and len(parts) != 3 and not (len(parts) == 4 and parts[2] == \"old\"):\n                # (DOMAIN", "            if len(parts) != 2 and len(parts) != 3:\n                # (DOMAIN"),
+    ("C05", "break", "any-change matches gated by hold_false again", "decorators/state.py", "                await self._check_new_state(trig_ok, any_change=any_change)", "                await self._check_new_state(trig_ok)"),
+    ("C08", "break", "event data merged over the trigger's own arguments", "event.py", "        func_args = {\n            **event.data,\n            \"trigger_type\": \"event\",\n            \"event_type\": event.event_type,\n            \"context\": event.context,\n        }", "        func_args = {\n            \"trigger_type\": \"event\",\n            \"event_type\": event.event_type,\n            \"context\": event.context,\n            **event.data,\n        }"),
+    ("C09", "break", "trigger task error path runs stop()", "trigger.py", "            if self.state_trig_ident:\n                State.notify_del(self.state_trig_ident, self.notify_q)\n            if self.event_trigger is not None:\n                Event.notify_del(self.event_trigger[0], self.notify_q)\n            if self.mqtt_trigger is not None:\n                Mqtt.notify_del(self.mqtt_trigger[0], self.notify_q)\n            if self.webhook_trigger is not None:\n                Webhook.notify_del(self.webhook_trigger[0], self.notify_q)\n            return", "            self.stop()\n            return"),
+    ("C10", "break", "closure search stops at the first level", "__init__.py", "                    if imp_name not in reached:\n                        reached.add(imp_name)\n                        todo.append(imp_name)", "                    if imp_name not in reached:\n                        reached.add(imp_name)"),
+    ("C11", "break", "star import ignores __all__ again", "eval.py", "                star_names = mod.__dict__.get(\"__all__\")\n                if star_names is None:\n", "                star_names = None\n                if star_names is None:\n"),
+    ("C12", "break", "built-in service names compared case-sensitively (new subsystem)", "decorators/service.py", "        if any(name.lower() in (SERVICE_RELOAD, SERVICE_JUPYTER_KERNEL_START) for _, name in self.services):", "        if any(name in (SERVICE_RELOAD, SERVICE_JUPYTER_KERNEL_START) for _, name in self.services):"),
+    ("C13", "break", "kill_me cancels a foreign caller again", "function.py", "                    if task != curr_task and curr_task in cls.our_tasks:", "                    if task != curr_task:"),
+    ("C14", "break", "waiter gathers without return_exceptions", "function.py", "                            await asyncio.gather(*aws, return_exceptions=True)", "                            await asyncio.gather(*aws)"),
+    ("C14", "benign", "waiter collects with asyncio.wait", "function.py", "                            await asyncio.gather(*aws, return_exceptions=True)", "                            await asyncio.wait(aws)"),
+    ("C15", "break", "shutdown word active inside a wait", "decorators/timing.py", "            self.run_on_shutdown = for_function", "            self.run_on_shutdown = True"),
+    ("C16", "break", "state lookup before the function lookup", "eval.py", "            if Function.get(arg.id):\n                return Function.get(arg.id)\n            num_dots = arg.id.count(\".\")", "            num_dots = arg.id.count(\".\")\n            if num_dots == 1 and State.exist(arg.id):\n                return State.get(arg.id)\n            if Function.get(arg.id):\n                return Function.get(arg.id)"),
+    ("C17", "break", "relative import falls back to installed modules", "eval.py", "        if not mod and arg.level > 0:\n", "        if not mod and arg.level > 9:\n"),
+    ("C18", "break", "formatter fails on a SyntaxError without offset", "eval.py", "                    self.col_offset = (self.exc.offset or 1) - 1", "                    self.col_offset = self.exc.offset - 1"),
+    ("C19", "break", "error path sends idle without flushing stdout", "jupyter_kernel.py", "                # what the cell printed before it failed is sent before idle, as for a cell that succeeds\n                await self.flush_stdout()\n", ""),
+    ("C20", "break", "requirement files read without BOM handling", "requirements.py", "encoding=\"utf-8-sig\"", "encoding=\"utf-8\""),
+    ("C20", "benign", "blank-stripping written as lstrip/rstrip", "requirements.py", "pkg_name = parts[0].strip()", "pkg_name = parts[0].lstrip().rstrip()"),
 ]
 
 
